@@ -238,7 +238,11 @@ def ob_framing(run, interp, npackets):
             if len(o.samples) < 5:
                 o.samples.append({"writes": [str(w)[:80] for w in c.notes.get("writes", [])][:3], "outcome": r.outcome})
             if bad is not None and o.verdict != "violated":
-                m = c.small_model([z3.Not(z3.And(*cond))] if cond and model is not None else [], [d.length_term() for d in datas])
+                extra = [z3.Not(z3.And(*cond))] if cond and model is not None else []
+                # prefer a counterexample without compression: the length of a real zlib image cannot be chosen freely
+                m = c.small_model(extra + [z3.Not(comp.e)], [d.length_term() for d in datas])
+                if m is None:
+                    m = c.small_model(extra, [d.length_term() for d in datas])
                 if m is None:
                     return
                 lengths = [m.eval(d.length_term(), model_completion=True).as_long() for d in datas]
@@ -247,8 +251,13 @@ def ob_framing(run, interp, npackets):
                 cv = z3.is_true(m.eval(comp.e, model_completion=True))
                 run.replay(o, "framing:%s" % bad.split()[0], "%s (lengths %s, compress=%s)" % (bad, lengths, cv), replay_framing(lengths, cv))
 
-        n, incomplete = par_explore(run, o, harness, on_path, acc, split_depth=3)
-        o.paths = dict(acc.counts, total=n)
+        saved = (interp.loop_bound, interp.on_bound)
+        interp.loop_bound, interp.on_bound, interp.cuts = 4, "cut", 0      # chunk loops (if any) unwound 4 times; longer ones are cut and counted
+        try:
+            n, incomplete = par_explore(run, o, harness, on_path, acc, split_depth=3, extra=lambda: interp.cuts)
+        finally:
+            interp.loop_bound, interp.on_bound = saved
+        o.paths = dict(acc.counts, total=n, cut_at_unwinding_bound=sum(o.extra_results or [0]))
         if incomplete:
             o.verdict = "inconclusive"
             o.detail = incomplete
